@@ -248,6 +248,7 @@ type Path struct {
 	Latch  *ssa.BasicBlock // target header for EndLatch
 	Ret    *ssa.Return
 	ctx    *Ctx
+	busy   map[string]bool
 }
 
 // Ctx evaluates values to terms along one path.
@@ -619,6 +620,30 @@ func loopStoresTo(l *Loop, root *ssa.Alloc) bool {
 			if st, ok := in.(*ssa.Store); ok && allocRoot(st.Addr) == root {
 				return true
 			}
+			if call, ok := in.(ssa.CallInstruction); ok && callTakes(call, root) {
+				return true
+			}
+		}
+	}
+	return false
+}
+
+// callTakes tells whether the call receives the cell (or an address inside it) as receiver,
+// argument or closure binding.
+func callTakes(call ssa.CallInstruction, root *ssa.Alloc) bool {
+	cc := call.Common()
+	for _, a := range cc.Args {
+		if allocRoot(a) == root {
+			return true
+		}
+	}
+	if !cc.IsInvoke() {
+		if mc, ok := cc.Value.(*ssa.MakeClosure); ok {
+			for _, b := range mc.Bindings {
+				if allocRoot(b) == root {
+					return true
+				}
+			}
 		}
 	}
 	return false
@@ -674,6 +699,10 @@ func (c *Ctx) lastStore(load *ssa.UnOp, addr string, root *ssa.Alloc) *ssa.Store
 				if c.term(st.Addr).String() == addr {
 					return st
 				}
+			}
+			// a call that receives (a pointer into) the cell may write it
+			if call, ok := instrs[k].(ssa.CallInstruction); ok && callTakes(call, root) {
+				return nil
 			}
 		}
 	}
@@ -935,6 +964,14 @@ func (p *Path) classifyErr(e *Term) (Outcome, *Term) {
 	if e.IsNil() {
 		return Success, nil
 	}
+	if p.busy == nil {
+		p.busy = map[string]bool{}
+	}
+	if p.busy[e.String()] {
+		return Unknown, nil
+	}
+	p.busy[e.String()] = true
+	defer delete(p.busy, e.String())
 	eqnil := simplify(mk("eq", "", nil, e, mk("const", "nil", nil))).String()
 	if pol, ok := p.FactOn(eqnil); ok {
 		if pol {
@@ -983,7 +1020,28 @@ func (p *Path) classifyErr(e *Term) (Outcome, *Term) {
 		// a local cell never stored on this path holds its zero value (stores by called
 		// closures are accounted for by Engine.Consistent)
 		if e.Args[0].Op == "alloc" {
-			return Success, nil
+			a, _ := e.Args[0].Val.(*ssa.Alloc)
+			if a == nil {
+				return Unknown, nil
+			}
+			var onPath []*ssa.Store
+			p.Instrs(func(in ssa.Instruction) {
+				if st, ok := in.(*ssa.Store); ok && st.Addr == ssa.Value(a) {
+					onPath = append(onPath, st)
+				}
+			})
+			if len(onPath) == 0 {
+				return Success, nil
+			}
+			// accumulator: every store anywhere is cell = errors.Join(cell, ...): once non-nil, stays non-nil
+			if accumulatorCell(p.Fn, a) {
+				for _, st := range onPath {
+					if o, _ := p.classifyErr(p.ctx.term(st.Val)); o == Failure {
+						return Failure, nil
+					}
+				}
+			}
+			return Unknown, nil
 		}
 	case "union":
 		all := Outcome(-1)
@@ -1089,4 +1147,60 @@ func CellOf(t *Term) ssa.Value {
 		return CellOf(&Term{Val: v.X})
 	}
 	return nil
+}
+
+
+// accumulatorCell tells whether every store to cell a, in fn and in the closures capturing it,
+// has the form a = errors.Join(*a, ...).
+func accumulatorCell(fn *ssa.Function, a *ssa.Alloc) bool {
+	ok := true
+	var check func(f *ssa.Function, cell ssa.Value)
+	check = func(f *ssa.Function, cell ssa.Value) {
+		for _, b := range f.Blocks {
+			for _, in := range b.Instrs {
+				switch v := in.(type) {
+				case *ssa.Store:
+					if v.Addr != cell {
+						continue
+					}
+					call, isCall := v.Val.(*ssa.Call)
+					if !isCall || StaticCallee(call) == nil || FuncName(StaticCallee(call)) != "errors.Join" {
+						ok = false
+						continue
+					}
+					// first variadic element is a load of the cell
+					good := false
+					if sl, isSl := call.Call.Args[0].(*ssa.Slice); isSl {
+						if arr, isA := sl.X.(*ssa.Alloc); isA {
+							for _, ref := range *arr.Referrers() {
+								if ia, isIA := ref.(*ssa.IndexAddr); isIA {
+									if k, isK := constInt(ia.Index); isK && k == 0 {
+										for _, r2 := range *ia.Referrers() {
+											if st, isSt := r2.(*ssa.Store); isSt {
+												if ld, isLd := st.Val.(*ssa.UnOp); isLd && ld.X == cell {
+													good = true
+												}
+											}
+										}
+									}
+								}
+							}
+						}
+					}
+					if !good {
+						ok = false
+					}
+				case *ssa.MakeClosure:
+					g := v.Fn.(*ssa.Function)
+					for i, bnd := range v.Bindings {
+						if bnd == cell && i < len(g.FreeVars) {
+							check(g, g.FreeVars[i])
+						}
+					}
+				}
+			}
+		}
+	}
+	check(fn, a)
+	return ok
 }
